@@ -124,6 +124,8 @@ def _gen_pair(rng, level, cfg):
         m_rt = m_st = None
         if presence in ("both", "rt"):
             m_rt = _gen_member(rng, name, k_rt, "rt", level, cfg)
+            if level == 0 and m_rt["k"] in ("func", "class", "attr") and rng.random() < cfg.get("p_guard", 0.0):  # not nested: the visitor resets its guard flag after an inner `if TYPE_CHECKING:` (a C01 matter)
+                m_rt["guard"] = True  # the runtime file defines it under `if TYPE_CHECKING:`
             rt.append(m_rt)
         if presence in ("both", "st"):
             m_st = _gen_member(rng, name, k_st, "st", level, cfg, like=m_rt)
@@ -163,6 +165,7 @@ def generate(rng, opts):
         "p_overload_impl": rng.choice([0.0, 0.0, 0.3]),
         "import_sources": rng.choice([["pkg._impl"], ["pkg._impl", "pkg._missing"], ["pkg._impl", "pkg._missing", "ext"], ["ext"]]),
         "p_star": rng.choice([0.0, 0.0, 0.4]),
+        "p_guard": rng.choice([0.0, 0.0, 0.2]),
     }
     if opts.get("no_known"):
         cfg["p_overload_impl"] = 0.0
@@ -274,7 +277,7 @@ def _sig(params, ret):
 
 def _as_model(m):
     if m["k"] == "func" and m.get("deco") == "property":
-        return {"k": "attr", "name": m["name"], "ann": m["ret"], "value": None, "doc": m["doc"]}
+        return {"k": "attr", "name": m["name"], "ann": m["ret"], "value": None, "doc": m["doc"], "guard": m.get("guard")}
     return m
 
 
@@ -282,7 +285,7 @@ def exp_alone(m, side):
     """Normalised expectation for a member that exists on one side only."""
     m = _as_model(m)
     k = m["k"]
-    rt = True if side == "rt" else ANY
+    rt = (not m.get("guard")) if side == "rt" else ANY
     if k == "func":
         return {"kind": "function", "doc": _doc(m["doc"]), **_sig(m["params"], m["ret"]), "overloads": None, "runtime": rt}
     if k == "attr":
@@ -313,6 +316,15 @@ def _merge_sig(rt_params, rt_ret, st_params, st_ret):
             params.append([p[0], p[1]])
     ret = st_ret if st_ret is not None else either(None, rt_ret)
     return {"params": params, "returns": ret}
+
+
+def _mark_guarded(node):
+    """Everything defined below an `if TYPE_CHECKING:` definition is type-guarded as well."""
+    if isinstance(node, dict) and "kind" in node:
+        if node.get("runtime") is True:
+            node["runtime"] = False
+        for child in (node.get("members") or {}).values():
+            _mark_guarded(child)
 
 
 def exp_container(rt, st, nested_stub_only=False):
@@ -352,6 +364,15 @@ def exp_container(rt, st, nested_stub_only=False):
             e["ann"] = s["ann"] if s["ann"] is not None else either(None, r["ann"])
         elif r["k"] == "class":
             e["members"] = exp_container(r["members"], s["members"])
+    for m in rt:
+        if m.get("guard") and m["name"] in out:
+            # runtime members of a guarded class are guarded; members the stubs add below it keep their own flag
+            rt_names = {c["name"] for c in m.get("members", [])} if m["k"] == "class" else set()
+            node = out[m["name"]]
+            node["runtime"] = False
+            for cname, child in (node.get("members") or {}).items():
+                if cname in rt_names:
+                    _mark_guarded(child)
     return out
 
 
@@ -372,6 +393,8 @@ def exp_world(world):
             node = {"kind": "module", "doc": _doc(rt["doc"]), "members": exp_container(rt["members"], []), "runtime": True}
         else:
             node = {"kind": "module", "doc": _doc(st["doc"]), "members": exp_container([], st["members"], nested_stub_only=True), "runtime": ANY}
+        if rt is not None and any(m.get("guard") for m in _all_members(rt["members"])):
+            node["members"].setdefault("TYPE_CHECKING", {"kind": "alias", "target": "typing.TYPE_CHECKING", "runtime": ANY})
         if st is not None and any(m["k"] == "overloads" for m in _all_members(st["members"])):
             # the rendered stub file starts with `from typing import overload`
             node["members"].setdefault("overload", {"kind": "alias", "target": "typing.overload", "runtime": ANY})
